@@ -365,7 +365,9 @@ def _c07_lemma():
         # C1 at the joins (slopes agree)
         ("slope_continuous_at_Pmin_and_Preq", hyp, z3.And(dpoly(a1, b1, c1, P0) == sl, dpoly(a2, b2, c2, PF) == sl)),
         # monotone on the linear pieces, and on the power-law piece given monotonicity of pow in its base
-        ("nondecreasing_below_Pmin_and_above_Preq", hyp + [p <= q, z3.Or(q <= P0, p >= PF)], g(p) <= g(q)),
+        # (two small queries over the linear pieces only: the coefficient equations with pow are not needed and made one query unstable, 20 s or timeout)
+        ("nondecreasing_below_Pmin", valid + [p <= q, q <= P0], g(p) <= g(q)),
+        ("nondecreasing_above_Preq", valid + [ens[6], p <= q, p >= PF], g(p) <= g(q)),      # at p = Preq itself the value is the upper cubic's: it is 1 there
         # on the power-law piece ghat = mid (obligation power_law_between_the_bands); mid is monotone by the pow axiom
         ("base_of_power_law_is_monotone_in_p", valid + [p <= q], (p - P0) / w <= (q - P0) / w),
         ("nondecreasing_on_power_law", [z3.Real("gp") == mid(p), z3.Real("gq") == mid(q),
